@@ -42,6 +42,9 @@ type Variant struct {
 	Drop  int   `json:"drop,omitempty"`  // C06/C14: index of the op removed in the twin run
 	Perm  []int `json:"perm,omitempty"`  // C16: new order of ops (indices into Ops)
 	Defer bool  `json:"defer,omitempty"` // C16: twin run toggles DeferAcyclicVerification
+	// C16: no permutation (the history has failing functions, whose effects
+	// depend on the order of execution); only DeferAcyclicVerification is toggled
+	NoPerm bool `json:"noperm,omitempty"`
 	// C15: the alternative encodings keep the order of all parameter leaves
 	// (runs of parameters wrapped into objects): executions are compared
 	// also on histories with failing functions
